@@ -1,2 +1,64 @@
--- stub driver for C12: replaced when the property's model exists
-def main : IO Unit := pure ()
+import Snel.Model.Proto
+import Snel.Model.Route
+open Snel Snel.Proto Snel.Route
+
+def hex16 (x : UInt64) : String :=
+  String.ofList ((List.range 16).map fun i => hexDigit ((x.toNat >>> (4 * (15 - i))) % 16))
+
+/-- Shard tag of an id: bits `[SEQ, SEQ+SHARD)` (same as `Snel.IdGen.tagOf` in the lemma file). -/
+def tagBits (id : Nat) : Nat := (id / 2 ^ Snel.Gen.idSequenceBits) % 2 ^ Snel.Gen.idShardBits
+
+def sortNat2 (l : List (Nat × Nat)) : List (Nat × Nat) :=
+  (l.toArray.qsort fun a b => a.1 < b.1 || (a.1 == b.1 && a.2 < b.2)).toList
+
+def showPairs (l : List (Nat × Nat)) : String :=
+  "[" ++ ",".intercalate ((sortNat2 l).map fun (k, t) => s!"{k}@{t}") ++ "]"
+
+/-- Where each event lives: (key, index of the shard whose store holds it). -/
+def whereAll (s : System) : List (Nat × Nat) :=
+  (s.shards.zipIdx).flatMap fun (sh, i) => sh.events.map fun e => (e.key, i)
+
+structure SysSt where
+  sys : System
+  tick : Nat
+  out : List String
+
+def sysStep (st : SysSt) (tok : String) : Option SysSt :=
+  match tok.splitOn ":" with
+  | ["S", c, k] => do
+    let ctx ← unhex c
+    let key ← k.toNat?
+    let s' := st.sys.store ctx key [Snel.Gen.idEpochMillis + 1 + st.tick]
+    let ok := s'.applied.length != st.sys.applied.length
+    some { sys := s', tick := st.tick + 1, out := (if ok then "S=ok" else "S=bad") :: st.out }
+  | ["R"] => some { st with sys := st.sys.restart, out := "R" :: st.out }
+  | ["Q", c] => do
+    let ctx ← unhex c
+    let rows := st.sys.read (some ctx)
+    some { st with out := ("Q=" ++ showPairs (rows.map fun e => (e.key, tagBits e.id))) :: st.out }
+  | ["QA"] =>
+    let rows := st.sys.read none
+    some { st with out := ("QA=" ++ showPairs (rows.map fun e => (e.key, tagBits e.id))) :: st.out }
+  | ["W"] => some { st with out := ("W=" ++ showPairs (whereAll st.sys)) :: st.out }
+  | ["A"] => some { st with out := (s!"A={(st.sys.asked none).length}") :: st.out }
+  | _ => none
+
+def answer (line : String) : String :=
+  match words line with
+  | ["route", c] =>
+    match unhex c with
+    | some ctx =>
+      let rs := (List.range 16).map fun i => toString (route ctx (i + 1))
+      s!"h={hex16 (ctxHash ctx)} b={if blank ctx then 1 else 0} r={",".intercalate rs}"
+    | none => "bad-op"
+  | "sys" :: n :: ops =>
+    match n.toNat? with
+    | some n =>
+      if n = 0 then "bad-op" else
+      match ops.foldlM sysStep { sys := System.init n, tick := 0, out := [] } with
+      | some st => " ".intercalate st.out.reverse
+      | none => "bad-op"
+    | none => "bad-op"
+  | _ => "bad-op"
+
+def main : IO Unit := serve answer
